@@ -264,7 +264,7 @@ example : (0x5d : UInt8) ∈ utf8Char ']' ∧ (0x5d : UInt8).toNat < 0x80 := by 
 /-- the hypothesis is needed: `]` + 0x80 is the last byte of U+00DD, and of no ASCII character -/
 example : utf8Char (Char.ofNat 0xdd) = [0xc3, 0x9d] := by decide +kernel
 
-theorem char_eq_of_toNat {c d : Char} (h : c.toNat = d.toNat) : c = d := by
+theorem char_eq_of_toNat_sh {c d : Char} (h : c.toNat = d.toNat) : c = d := by
   rw [← Char.ofNat_toNat c, ← Char.ofNat_toNat d, h]
 
 theorem utf8_ne_nil {s : Str} (h : s ≠ []) : utf8 s ≠ [] := by
@@ -286,7 +286,7 @@ theorem utf8_cons_head (c : Char) (s : Str) :
     by_cases hb : b0 = 0x5b
     · subst hb
       have := utf8Char_mem_ascii c 0x5b (by rw [hc]; simp) (by decide)
-      have : c = '[' := char_eq_of_toNat this.2
+      have : c = '[' := char_eq_of_toNat_sh this.2
       subst this; rfl
     · have : c ≠ '[' := by
         intro e; subst e
@@ -324,7 +324,7 @@ theorem utf8_endsWith (s : Str) : endsWith (utf8 s) [0x5d] = (s.getLast? == some
       by_cases hb : bl = 0x5d
       · subst hb
         have := utf8Char_mem_ascii c 0x5d (by rw [e]; simp) (by decide)
-        have : c = ']' := char_eq_of_toNat this.2
+        have : c = ']' := char_eq_of_toNat_sh this.2
         subst this; rfl
       · have hc' : c ≠ ']' := by
           intro e'; subst e'
@@ -374,8 +374,8 @@ theorem default_laxHost : Cfg.default.laxHost = false := rfl
 theorem default_encOverride : Cfg.default.encOverride = none := rfl
 theorem default_preHost : Cfg.default.preHost = none := rfl
 theorem default_postHost : Cfg.default.postHost = none := rfl
-theorem record_default (u : Url) (t : ErrT) (f : Bool) : record Cfg.default u t f = u := rfl
-theorem stops_default : stops Cfg.default false = false := rfl
+theorem record_default_sh (u : Url) (t : ErrT) (f : Bool) : record Cfg.default u t f = u := rfl
+theorem stops_default_sh : stops Cfg.default false = false := rfl
 theorem fail6_default (u : Url) (t : ErrT) : fail6 Cfg.default u t = ⟨u, .err ⟨t, true⟩⟩ := rfl
 
 theorem c0Set_has : c0Set.has = Spec.c0ControlSet := funext C10.C10_tables.1
@@ -394,7 +394,7 @@ theorem opaqueLoop_default (input : Bytes) : ∀ (rs : Str) (u : Url) (out : Byt
   | nil => intro u out; simp [opaqueLoop, Spec.utf8PercentEncode]
   | cons c rest ih =>
     intro u out
-    simp only [opaqueLoop, record_default, stops_default, default_laxHost, Bool.and_false, Bool.false_eq_true,
+    simp only [opaqueLoop, record_default_sh, stops_default_sh, default_laxHost, Bool.and_false, Bool.false_eq_true,
       if_false, ite_self, C10.C10_forbidden_tables.1, List.any_cons]
     by_cases hf : Spec.forbiddenHostCp c.toNat = true
     · simp only [hf, if_true, Bool.true_or]
@@ -728,7 +728,7 @@ theorem map_lowerC_ascii (d : Str) (h : ∀ c ∈ d, c.toNat < 0x80) : ∀ c ∈
   obtain ⟨c0, hc0, rfl⟩ := hc
   exact (lowerC_ascii c0 (h c0 hc0)).2.1
 
-theorem asciiLower_utf8 (d : Str) (h : ∀ c ∈ d, c.toNat < 0x80) : asciiLower (utf8 d) = utf8 (d.map lowerC) := by
+theorem asciiLower_utf8_sh (d : Str) (h : ∀ c ∈ d, c.toNat < 0x80) : asciiLower (utf8 d) = utf8 (d.map lowerC) := by
   induction d with
   | nil => rfl
   | cons c t ih =>
@@ -766,7 +766,7 @@ theorem forbiddenLoop_default (a : Bytes) : ∀ (rs : Str) (u : Url),
   | nil => intro u; rfl
   | cons c rest ih =>
     intro u
-    simp only [forbiddenLoop, record_default, default_laxHost, Bool.false_eq_true, if_false,
+    simp only [forbiddenLoop, record_default_sh, default_laxHost, Bool.false_eq_true, if_false,
       C10.C10_forbidden_tables.2, List.any_cons]
     by_cases hf : Spec.forbiddenDomainCp c.toNat = true
     · simp only [hf, if_true, Bool.true_or]
@@ -878,7 +878,7 @@ theorem domain_conforms (I : Idna) (hI : IdnaLaws I) (u : Url) (sbuf : Str) (hne
       have haom := aom_of_pureAscii d hp
       have hascii : Ascii dom := hu ▸ utf8_ascii_bytes d hasc
       have ha : (I dom).1 = asciiLower dom := hI.ascii_lower dom hascii (by rw [hdd]; exact haom)
-      have ha' : (I dom).1 = utf8 (d.map lowerC) := by rw [ha, ← hu, asciiLower_utf8 d hasc]
+      have ha' : (I dom).1 = utf8 (d.map lowerC) := by rw [ha, ← hu, asciiLower_utf8_sh d hasc]
       have hlow := map_lowerC_ascii d hasc
       have hA : Ascii (I dom).1 := ha' ▸ utf8_ascii_bytes _ hlow
       have hstr : asStr (I dom).1 = d.map lowerC := by
